@@ -1,4 +1,150 @@
+/-
+Property C10 — difference logic: distances are exact, conflicts mean infeasibility.
+
+`Dl` (OratioModel/Net/Dl.lean) is ONE model for `idl_theory` and `rdl_theory` (the two C++ files
+are the same text up to the number type).  The theorems below are proved for the integer
+instance `idlOps` (machine integers as unbounded `Int`, the sentinel `idlInf = LONG_MAX/2 - 1`
+as infinity, all finite distances within `±K` with `4·(n+1)·K < idlInf`, which is the
+no-overflow range the property speaks about).  The real-valued instance shares every line of
+the algorithm; it is tied to the code by the same exact correspondence and judged by the same
+Floyd–Warshall oracle, but the algebraic lemmas for `inf_rational` weights are not proved here
+(see DESIGN.md, C10 "partial").
+
+Vocabulary: an *edge* `(f, t, w)` is the difference constraint `x_t - x_f ≤ w`; a valuation is
+`σ : Nat → Int`.  `E` is the ghost list of edges enforced so far.
+-/
 import OratioModel
+import OratioProofs.Lemmas.Dl
+import OratioProofs.Lemmas.DlExact
+
 namespace Oratio
-theorem C10_placeholder : (Dl.init idlOps 16 : Dl Int).nVars = 1 := by decide
+
+abbrev IEdge := Nat × Nat × Int
+
+def IEdge.holds (σ : Nat → Int) (e : IEdge) : Prop := σ e.2.1 - σ e.1 ≤ e.2.2
+def Feasible (E : List IEdge) : Prop := ∃ σ : Nat → Int, ∀ e ∈ E, IEdge.holds σ e
+
+/-- distance entry as an extended integer: `none` = +∞ -/
+def Dl.dist? (t : Dl Int) (i j : Nat) : Option Int :=
+  let x := Dl.d idlOps t i j; if x = idlInf then none else some x
+
+/-- the matrix invariant relative to the enforced edges `E`, over the `n = t.nVars` time points -/
+structure Dl.Exact (K : Int) (E : List IEdge) (t : Dl Int) : Prop where
+  size_ok : 1 ≤ t.nVars ∧ t.nVars ≤ t.dists.length ∧ (∀ r ∈ t.dists, r.length = t.dists.length) ∧
+    t.preds.length = t.dists.length ∧ (∀ r ∈ t.preds, r.length = t.dists.length)
+  /-- entries outside the used block are as `resize` / the constructor leave them -/
+  fresh : ∀ i j, i < t.dists.length → j < t.dists.length → (t.nVars ≤ i ∨ t.nVars ≤ j) →
+    Dl.d idlOps t i j = if i = j then 0 else idlInf
+  range : 0 ≤ K ∧ 4 * ((t.nVars : Int) + 1) * K < idlInf
+  /-- finite entries stay in the no-overflow range -/
+  bounded : ∀ i j, i < t.nVars → j < t.nVars → ∀ x, t.dist? i j = some x → -((t.nVars : Int)) * K ≤ x ∧ x ≤ (t.nVars : Int) * K
+  edges_in : ∀ e ∈ E, e.1 < t.nVars ∧ e.2.1 < t.nVars ∧ -K ≤ e.2.2 ∧ e.2.2 ≤ K
+  diag : ∀ i, i < t.nVars → t.dist? i i = some 0
+  /-- every enforced edge is respected by the matrix -/
+  respects : ∀ e ∈ E, ∃ x, t.dist? e.1 e.2.1 = some x ∧ x ≤ e.2.2
+  /-- triangle inequality -/
+  closed : ∀ i j k, i < t.nVars → j < t.nVars → k < t.nVars →
+    ∀ a b, t.dist? i k = some a → t.dist? k j = some b → ∃ c, t.dist? i j = some c ∧ c ≤ a + b
+  /-- soundness: every finite entry is implied by the enforced edges -/
+  implied : ∀ i j, i < t.nVars → j < t.nVars → ∀ x, t.dist? i j = some x →
+    ∀ σ : Nat → Int, (∀ e ∈ E, IEdge.holds σ e) → σ j - σ i ≤ x
+
+/-! ## what exactness means -/
+
+/-- Tightness: a finite entry `d i j` is ATTAINED by a valuation satisfying all enforced edges
+    (when every time point is reachable from `i`), so together with `implied` it is exactly the
+    tightest bound on `x_j - x_i`; in particular the enforced constraints are feasible. -/
+theorem C10_tight_witness (K : Int) (E : List IEdge) (t : Dl Int) (h : t.Exact K E) (i j : Nat)
+    (hi : i < t.nVars) (hj : j < t.nVars) (x : Int) (hx : t.dist? i j = some x)
+    (hreach : ∀ k, k < t.nVars → t.dist? i k ≠ none) :
+    ∃ σ : Nat → Int, (∀ e ∈ E, IEdge.holds σ e) ∧ σ j - σ i = x := by
+  exact Dl.tight_witness K E t ⟨h.size_ok, h.fresh, h.range, h.bounded, h.edges_in, h.diag, h.respects, h.closed, h.implied⟩ i j hi hj x hx hreach
+
+/-- an infinite entry means the difference is unbounded above: for every bound there is a
+    valuation satisfying all enforced edges that exceeds it -/
+theorem C10_infinite_means_unbounded (K : Int) (E : List IEdge) (t : Dl Int) (h : t.Exact K E) (i j : Nat)
+    (hi : i < t.nVars) (hj : j < t.nVars) (hx : t.dist? i j = none) (B : Int) :
+    ∃ σ : Nat → Int, (∀ e ∈ E, IEdge.holds σ e) ∧ σ j - σ i > B := by
+  exact Dl.infinite_means_unbounded K E t ⟨h.size_ok, h.fresh, h.range, h.bounded, h.edges_in, h.diag, h.respects, h.closed, h.implied⟩ i j hi hj hx B
+
+/-- the enforced constraints of an exact state are feasible -/
+theorem C10_exact_feasible (K : Int) (E : List IEdge) (t : Dl Int) (h : t.Exact K E) : Feasible E := by
+  exact Dl.exact_feasible K E t ⟨h.size_ok, h.fresh, h.range, h.bounded, h.edges_in, h.diag, h.respects, h.closed, h.implied⟩
+
+/-! ## the incremental update -/
+
+theorem C10_init_exact (K : Int) (hK : 0 ≤ K ∧ 4 * 2 * K < idlInf) : (Dl.init idlOps 16 : Dl Int).Exact K [] := by
+  have r := Dl.init_exact K hK
+  exact ⟨r.size_ok, r.fresh, r.range, r.bounded, r.edges_in, r.diag, r.respects, r.closed, r.implied⟩
+
+/-- growing the network keeps exactness (including the resize of the matrix) -/
+theorem C10_newVar_exact (K : Int) (E : List IEdge) (t : Dl Int) (h : t.Exact K E)
+    (hK : 4 * ((t.nVars : Int) + 2) * K < idlInf) : (Dl.newVar idlOps t).2.Exact K E ∧ (Dl.newVar idlOps t).1 = t.nVars := by
+  have r := Dl.newVar_exact K E t ⟨h.size_ok, h.fresh, h.range, h.bounded, h.edges_in, h.diag, h.respects, h.closed, h.implied⟩ hK
+  exact ⟨⟨r.1.size_ok, r.1.fresh, r.1.range, r.1.bounded, r.1.edges_in, r.1.diag, r.1.respects, r.1.closed, r.1.implied⟩, r.2⟩
+
+/-- Closed form of `propagate(from, to, w)`: enforcing an edge that does not close a negative
+    cycle and improves the entry updates every distance to `min (d i j) (d i f + w + d t j)`,
+    and the state stays exact for the enlarged edge set.  (`s` is only used to read literal
+    values and record lemmas; it does not influence the matrix.) -/
+theorem C10_update_closed_form (K : Int) (E : List IEdge) (s : Sat) (t : Dl Int) (h : t.Exact K E)
+    (f g : Nat) (w : Int) (hf : f < t.nVars) (hg : g < t.nVars) (hfg : f ≠ g) (hw : -K ≤ w ∧ w ≤ K)
+    (hnocycle : ∀ x, t.dist? g f = some x → 0 ≤ x + w)
+    (himproves : ∀ x, t.dist? f g = some x → w < x) :
+    let t' := (Dl.propagateEdge idlOps s t f g w).2
+    t'.Exact K ((f, g, w) :: E) ∧ t'.nVars = t.nVars ∧
+    ∀ i j, i < t.nVars → j < t.nVars →
+      t'.dist? i j =
+        (match t.dist? i f, t.dist? g j with
+         | some a, some b => match t.dist? i j with
+           | some c => some (min c (a + w + b))
+           | none => some (a + w + b)
+         | _, _ => t.dist? i j) := by
+  intro t'
+  have r := Dl.update_closed_form K E s t ⟨h.size_ok, h.fresh, h.range, h.bounded, h.edges_in, h.diag, h.respects, h.closed, h.implied⟩ f g w hf hg hfg hw hnocycle himproves
+  exact ⟨⟨r.1.size_ok, r.1.fresh, r.1.range, r.1.bounded, r.1.edges_in, r.1.diag, r.1.respects, r.1.closed, r.1.implied⟩,
+    r.2.1, r.2.2⟩
+
+/-! ## conflicts -/
+
+/-- `propagate(lit)` on an asserted constraint signals a conflict exactly when the enforced
+    edges together with the new one are infeasible (a negative cycle) -/
+theorem C10_conflict_iff_infeasible (K : Int) (E : List IEdge) (s : Sat) (t : Dl Int) (h : t.Exact K E)
+    (c : DConstr Int) (hc : t.constrOf c.b = some c) (hv : s.value ⟨c.b, true⟩ = some true)
+    (hr : c.src < t.nVars ∧ c.dst < t.nVars ∧ c.src ≠ c.dst ∧ -K ≤ c.dist ∧ c.dist ≤ K) :
+    (∃ cl, Dl.propagateLit idlOps s t ⟨c.b, true⟩ = .inl cl) ↔ ¬ Feasible ((c.src, c.dst, c.dist) :: E) := by
+  exact Dl.conflict_iff_infeasible K E s t ⟨h.size_ok, h.fresh, h.range, h.bounded, h.edges_in, h.diag, h.respects, h.closed, h.implied⟩ c hc hv hr
+
+/-- the negation of `t - f ≤ d` over the integers is `f - t ≤ -d - 1`, and a negated
+    constraint signals a conflict exactly when that reversed edge is infeasible -/
+theorem C10_negation_is_reverse_edge (K : Int) (E : List IEdge) (s : Sat) (t : Dl Int) (h : t.Exact K E)
+    (c : DConstr Int) (hc : t.constrOf c.b = some c) (hv : s.value ⟨c.b, true⟩ = some false)
+    (hr : c.src < t.nVars ∧ c.dst < t.nVars ∧ c.src ≠ c.dst ∧ -K ≤ c.dist ∧ c.dist + 1 ≤ K) :
+    (∀ σ : Nat → Int, ¬ IEdge.holds σ (c.src, c.dst, c.dist) ↔ IEdge.holds σ (c.dst, c.src, -c.dist - 1)) ∧
+    ((∃ cl, Dl.propagateLit idlOps s t ⟨c.b, false⟩ = .inl cl) ↔ ¬ Feasible ((c.dst, c.src, -c.dist - 1) :: E)) := by
+  exact Dl.negation_is_reverse_edge K E s t ⟨h.size_ok, h.fresh, h.range, h.bounded, h.edges_in, h.diag, h.respects, h.closed, h.implied⟩ c hc hv hr
+
+/-- asserting or negating a constraint without conflict keeps the state exact for the edge set
+    extended by the asserted (resp. reversed) edge, or leaves it unchanged when redundant -/
+theorem C10_propagate_exact (K : Int) (E : List IEdge) (s s' : Sat) (t t' : Dl Int) (h : t.Exact K E)
+    (c : DConstr Int) (hc : t.constrOf c.b = some c) (b : Bool) (hv : s.value ⟨c.b, true⟩ = some b)
+    (hr : c.src < t.nVars ∧ c.dst < t.nVars ∧ c.src ≠ c.dst ∧ -K ≤ c.dist ∧ c.dist + 1 ≤ K)
+    (hp : Dl.propagateLit idlOps s t ⟨c.b, b⟩ = .inr (s', t')) :
+    t'.Exact K ((if b then (c.src, c.dst, c.dist) else (c.dst, c.src, -c.dist - 1)) :: E) := by
+  have r := Dl.propagate_exact K E s s' t t' ⟨h.size_ok, h.fresh, h.range, h.bounded, h.edges_in, h.diag, h.respects, h.closed, h.implied⟩ c hc b hv hr hp
+  exact ⟨r.size_ok, r.fresh, r.range, r.bounded, r.edges_in, r.diag, r.respects, r.closed, r.implied⟩
+
+/-- the literal returned by `new_distance` is a constant only when the matrix already decides
+    the constraint -/
+theorem C10_new_distance_shortcut_valid (K : Int) (E : List IEdge) (s : Sat) (t : Dl Int) (h : t.Exact K E)
+    (f g : Nat) (w : Int) (hf : f < t.nVars) (hg : g < t.nVars) (hw : -K ≤ w ∧ w ≤ K) (hs : 0 < s.vals.length) :
+    ((Dl.newDistance idlOps s t f g w).1 = Lit.trueLit → ∀ σ : Nat → Int, (∀ e ∈ E, IEdge.holds σ e) → IEdge.holds σ (f, g, w)) ∧
+    ((Dl.newDistance idlOps s t f g w).1 = Lit.falseLit → ∀ σ : Nat → Int, (∀ e ∈ E, IEdge.holds σ e) → ¬ IEdge.holds σ (f, g, w)) := by
+  exact Dl.new_distance_shortcut_valid K E s t ⟨h.size_ok, h.fresh, h.range, h.bounded, h.edges_in, h.diag, h.respects, h.closed, h.implied⟩ f g w hf hg hw hs
+
+/-! ## non-vacuity -/
+example : ∃ t : Dl Int, t = (Dl.propagateEdge idlOps Sat.init ((Dl.newVar idlOps ((Dl.newVar idlOps (Dl.init idlOps 16)).2)).2) 1 2 3).2 ∧
+    t.dist? 1 2 = some 3 ∧ t.dist? 2 1 = none := by
+  refine ⟨_, rfl, ?_, ?_⟩ <;> decide
+
 end Oratio
